@@ -9,7 +9,7 @@ from ..terms import A, C, F, V, NIL, term_size, pp as show_term
 
 ID = 'C02'
 LEVEL = 'model_checking'
-RULE = ('every ordered pair (t1,t2) of the term universe (quick: all terms of depth <=1 over variables X,Y,Z, '
+RULE = ('(r) one engine and the same three variables through ALL ordered pairs of a 33-term universe in 8 (thorough 32) rotations, each unification run to the end and closed - also the cyclic ones, whose outcome is not judged - nothing may be left behind and every result must be the reference result; (p) every ordered pair (t1,t2) of the term universe (quick: all terms of depth <=1 over variables X,Y,Z, '
         'atoms a,b,[], Python constants 1, 1000003, \'str\' (passed as equal but distinct objects) and None, 0, the empty string, -1, -2, 2**61-1 (pairs with colliding Python hashes) (at top level and as arguments of f/1, f/2), two-cell list-shaped terms whose cells are named . or f, wide compounds f/10 f/11 f/12 p/21 next to f1/0 f1/2 p2/1, functors f/0 a/0 (compound terms without arguments, distinct from the atoms) f/1 f/2 g/1 ./2; thorough: additionally all terms of depth <=2 with <=4 symbols under the 6 menu stacks) '
         'x every stack of earlier, still suspended unifications from the menu (quick: 6 stacks; thorough: the depth<=1 universe under every '
         'stack of <=2 equations out of 8 that is consistent and acyclic) x every point of the stack at which the unify generator is CREATED (it is always advanced under the whole stack). For each: number of yields, canonical '
@@ -99,9 +99,9 @@ def stacks(tier):
 
 def plan(tier):
     if tier == 'quick':
-        return [('quick', 'quick', k, 16) for k in range(16)]
+        return [('quick', 'quick', k, 16) for k in range(16)] + [('reuse', k, 8) for k in range(8)]
     # thorough = (depth<=2 universe x the 6 menu stacks) + (depth<=1 universe x all stacks of <=2 equations)
-    return [('thorough', 'quick', k, 256) for k in range(256)] + [('quick', 'thorough', k, 64) for k in range(64)]
+    return [('thorough', 'quick', k, 256) for k in range(256)] + [('quick', 'thorough', k, 64) for k in range(64)] + [('reuse', k, 32) for k in range(32)]
 
 
 def has_dot(t):
@@ -232,7 +232,79 @@ def check_pair(stack, t1, t2, create_at=None, dots2='listpair'):
     return ('ok', exp, steps, nontrivial)
 
 
+# ---- the same variable objects through a whole sequence of unifications ---------------------------
+# One engine, one X, Y, Z for ALL ordered pairs of a small universe, one pair after the other: every
+# unification is run to exhaustion and closed - also the ones that would need a cyclic term, whose
+# OUTCOME is unspecified but which, once over, must leave nothing behind - and the next pair must
+# behave as if the variables were new.
+def reuse_universe():
+    base = [X, Y, a, C(1)]
+    return base + [F('f', t) for t in base] + [F('g', t, u) for t in base for u in base] + [F('.', X, Y), F('.', a, X), NIL]
+
+
+def run_reuse(k, n, acc):
+    import sys
+    U = reuse_universe()
+    yp = impl.YP()
+    vm = {}
+    vx, vy, vz = (impl.to_engine(yp, v, vm) for v in (X, Y, Z))
+    fresh = canon([X, Y, Z], {})
+    # the order of the pairs is rotated per shard, so that every pair is preceded by different ones
+    pairs = [(t1, t2) for t1 in U for t2 in U]
+    r = (k * 37) % len(pairs)
+    pairs = pairs[r:] + pairs[:r]
+    trail = []
+    for t1, t2 in pairs:
+        acc.n['evaluations'] += 1
+        try:
+            env = ref_unify(t1, t2, {})
+            cyclic = False
+        except Cyclic:
+            env, cyclic = None, True
+        e1, e2 = impl.to_engine(yp, t1, vm), impl.to_engine(yp, t2, vm)
+        got = None
+        nans = 0
+        try:
+            g = iter(impl.engine.unify(e1, e2))
+            for _ in g:
+                nans += 1
+                if not cyclic:
+                    got = impl.observe([vx, vy, vz, e1, e2])
+                if nans > 1:
+                    break
+            c = getattr(g, 'close', None)
+            if c is not None:
+                c()
+        except RecursionError:
+            if not cyclic:
+                raise
+        g = None
+        trail.append('%s = %s%s' % (show_term(t1), show_term(t2), ' [cyclic, outcome not judged]' if cyclic else ''))
+        after = impl.observe([vx, vy, vz])
+        label = 'one engine, the same X, Y, Z throughout; unifications so far (each run to the end and closed): ...%s\n' % ' ; '.join(trail[-6:])
+        if after != fresh:
+            acc.n['validated'] += 1
+            acc.violation('reuse:bindings-left', (9, k, len(trail)), {'reuse': [k, len(trail)]}, label + 'afterwards (X,Y,Z) = %s' % show_obs(after), key='reuse|%d|%d' % (k, len(trail)))
+            return
+        if cyclic:
+            acc.skipped['cyclic'] += 1
+            continue
+        acc.n['validated'] += 1
+        exp = None if env is None else canon([X, Y, Z, t1, t2], env)
+        if nans > 1 or got != exp:
+            acc.violation('reuse:result-depends-on-earlier-unifications', (9, k, len(trail)), {'reuse': [k, len(trail)]},
+                          label + 'the last one gives %s (answers: %d), expected %s' % (show_obs(got) if got else 'no answer', nans, show_obs(exp) if exp else 'no answer'),
+                          key='reuse|%d|%d' % (k, len(trail)))
+            return
+        acc.n['transitions'] += 2
+        acc.outcome(('reuse', exp))
+
+
 def run_shard(spec):
+    if spec[0] == 'reuse':
+        acc = Acc()
+        run_reuse(spec[1], spec[2], acc)
+        return acc
     utier, stier, k, n = spec
     acc = Acc()
     U = universe(utier)
@@ -268,6 +340,10 @@ def run_shard(spec):
 
 
 def replay(case):
+    if 'reuse' in case:
+        acc = Acc()
+        run_reuse(case['reuse'][0], 8, acc)
+        return [(sig, g['detail']) for sig, g in acc.groups.items()]
     r = check_pair(_t(case['stack']), _t(case['t1']), _t(case['t2']), case.get('create_at'), case.get('dots2', 'listpair'))
     if r[0] == 'violation':
         return [(r[1], r[2])]
